@@ -13,6 +13,7 @@ def run(ctx, rep):
         implicit = None
     if implicit is not None:
         implicit.rule_implicit_raisers(ctx, rep, "C04-R2")
+        implicit.rule_ord_of_case_mapping(ctx, rep, "C04-R2c")
     frontprogress.rule_frontend_progress(ctx, rep, "C04-R5")
     builtins.rule_index_bound_survives_callback(ctx, rep, "C04-R6")
     rep.undecided += [
